@@ -144,7 +144,7 @@ func vGranted(p *vPre, c vCluster, m pb.Message) uint64 {
 
 // C03/V4 (+C18): a candidate becomes leader only with granted votes from a
 // quorum of voting members; responses of non-voting or unknown replicas never count.
-// vcheck: reach=elected,notelected,done workers=16
+// vcheck: props=C18 reach=elected,notelected,done workers=16
 func VHarness_C03_VoteResp() {
 	shapes := []int{vS3, vS3w, vS4}
 	if vTier() > 0 {
